@@ -779,6 +779,10 @@ func (c *Ctx) sliceGuarded(fd *ast.FuncDecl, se *ast.SliceExpr) bool {
 
 // mapStoreSafe: the map is a fresh local (made or literal) or the store is dominated by the nil-check-and-make idiom.
 func (c *Ctx) mapStoreSafe(fd *ast.FuncDecl, as *ast.AssignStmt, ix *ast.IndexExpr) bool {
+	return c.mapStoreSafeAt(fd, as, ix)
+}
+
+func (c *Ctx) mapStoreSafeAt(fd *ast.FuncDecl, as ast.Node, ix *ast.IndexExpr) bool {
 	base := unparen(ix.X)
 	// store into the very map being ranged over: the body runs only for a non-empty, hence non-nil, map
 	inRange := false
@@ -812,6 +816,42 @@ func (c *Ctx) mapStoreSafe(fd *ast.FuncDecl, as *ast.AssignStmt, ix *ast.IndexEx
 				}
 			}
 			if all {
+				return true
+			}
+		}
+	}
+	// store into the method's own receiver of map type: safe iff every package call site passes a map that is
+	// made or nil-checked there (the obligation moves to the callers)
+	if id, ok := base.(*ast.Ident); ok && c.recvObj(fd) != nil && c.objOf(id) == c.recvObj(fd) {
+		if _, isMap := c.objOf(id).Type().Underlying().(*types.Map); isMap {
+			self, _ := c.Info.Defs[fd.Name].(*types.Func)
+			allSafe, sites := true, 0
+			for _, g := range c.allFuncDecls() {
+				if g.Body == nil {
+					continue
+				}
+				ast.Inspect(g.Body, func(n ast.Node) bool {
+					call, ok := n.(*ast.CallExpr)
+					if !ok {
+						return true
+					}
+					if f, ok := c.callee(call).(*types.Func); !ok || f != self {
+						return true
+					}
+					sites++
+					se, ok := unparen(call.Fun).(*ast.SelectorExpr)
+					if !ok {
+						allSafe = false
+						return true
+					}
+					fake := &ast.IndexExpr{X: se.X}
+					if !c.mapStoreSafeAt(g, call, fake) {
+						allSafe = false
+					}
+					return true
+				})
+			}
+			if sites > 0 && allSafe {
 				return true
 			}
 		}
